@@ -309,12 +309,9 @@ fn main() {
             let mut parser = RVParser::new(reader);
 
             let mut diags = Vec::new();
-            let parsed = parser.parse_from_file(
-                lint.path
-                    .to_str()
-                    .expect("unable to convert path to string"),
-                false,
-            );
+            // (a path that is not UTF-8 names no file the reader can open: it is reported as
+            // such instead of ending the program)
+            let parsed = parser.parse_from_file(&lint.path.to_string_lossy(), false);
             parsed
                 .1
                 .iter()
